@@ -39,26 +39,14 @@ theorem Full.cur_bit {s : St} (h : Full s) {w : WriteJob} (hw : s.writing = some
 /-! ### no panic, handler by handler, under `Full` -/
 
 theorem writerRun_no_panic' (m : M) (w : WriteJob) (h : Full m.1) (hw : m.1.writing = some w) :
-    (writerRun m w).1.panicked = m.1.panicked := by
-  have hsec := h.w.wb w hw
-  have hcc : m.1.completeCClosed = true → m.1.completed = true := fun hh => h.comp.cc ▸ hh
-  unfold writerRun
-  dsimp only
-  split
-  · next hg => exact handlePieceWriteDone_no_panic m w false (fun hh => by simp [hh] at hg) hcc
-  · split
-    · next hnil => exact absurd hnil hsec
-    · split
-      · rw [handlePieceWriteDone_no_panic _ w true (fun _ hh => by cases hh) (by simpa using hcc)]; simp
-      · next hstale =>
-        split
-        · rw [handlePieceWriteDone_no_panic _ w true (fun _ hh => by cases hh) (by simpa using hcc)]; simp
-        · simp only [Bool.or_eq_true, ne_eq, decide_eq_true_eq, Bool.not_eq_true', not_or,
-            Decidable.not_not, Bool.not_eq_false] at hstale
-          rw [handlePieceWriteDone_no_panic _ w false _ (by simpa using hcc)]
-          · simp
-          · intro _ _
-            simpa using h.cur_bit hw hstale.1 hstale.2
+    (writerRun m w).1.panicked = m.1.panicked :=
+  writerRun_no_panic m w (fun _ hg hl => h.cur_bit hw hg hl) (fun hh => h.comp.cc ▸ hh)
+
+/-- The delivery of a held result (`gate writeDone` released): ignored if stale, else the job's piece is not
+yet held. -/
+theorem handlePieceWriteDone_no_panic' (m : M) (w : WriteJob) (e : Bool) (h : Full m.1) (hw : m.1.writing = some w) :
+    (handlePieceWriteDone m w e).1.panicked = m.1.panicked :=
+  handlePieceWriteDone_no_panic m w e (fun _ _ hg hl => h.cur_bit hw hg hl) (fun hh => h.comp.cc ▸ hh)
 
 theorem handlePieceMessage_no_panic' (m : M) (k i b l : Nat) (g : Bool) (h : WInv m.1) (hw : m.1.writing = none) :
     (handlePieceMessage m k i b l g).1.panicked = m.1.panicked := by
@@ -244,10 +232,17 @@ theorem runWorkers_full (fuel : Nat) (m : M) (h : Full m.1) :
     split
     · next w hw =>
       split
-      · obtain ⟨f, np⟩ := ih (writerRun m w)
-          ⟨writerRun_life m w h.life, writerRun_comp m w h.comp, writerRun_winv m w h.w h.life h.comp hw⟩
-        exact ⟨f, fun hp => np (by rw [writerRun_no_panic' m w h hw]; exact hp)⟩
-      · exact ⟨h, fun hp => hp⟩
+      · split
+        · obtain ⟨f, np⟩ := ih (handlePieceWriteDone m w false)
+            ⟨handlePieceWriteDone_life m w false h.life, handlePieceWriteDone_comp m w false h.comp,
+              handlePieceWriteDone_winv m w false h.w h.life h.comp hw⟩
+          exact ⟨f, fun hp => np (by rw [handlePieceWriteDone_no_panic' m w false h hw]; exact hp)⟩
+        · exact ⟨h, fun hp => hp⟩
+      · split
+        · obtain ⟨f, np⟩ := ih (writerRun m w)
+            ⟨writerRun_life m w h.life, writerRun_comp m w h.comp, writerRun_winv m w h.w h.life h.comp hw⟩
+          exact ⟨f, fun hp => np (by rw [writerRun_no_panic' m w h hw]; exact hp)⟩
+        · exact ⟨h, fun hp => hp⟩
     · exact ⟨h, fun hp => hp⟩
 
 /-! ### the parked message, `step` -/
@@ -340,8 +335,9 @@ theorem reconcile_dls (s : St) (impl : List ImplDl) (he : (reconcile s impl).2 =
 theorem reconcile_winv (s : St) (impl : List ImplDl) (h : WInv s) (he : (reconcile s impl).2 = []) :
     WInv (reconcile s impl).1 := by
   have hd := reconcile_dls s impl he
-  refine ⟨by simpa using h.cfgOK, ?_, by simpa using h.wf, by simpa using h.wb, by simpa using h.wg,
-    by simpa using h.wc, by simpa using h.bd, ?_, ?_, by simpa using h.al, by simpa using h.id⟩
+  refine ⟨?_, by simpa using h.wf, by simpa using h.wg,
+    by simpa using h.wc, by simpa [St.n] using h.wl, by simpa using h.wd, by simpa using h.bd, ?_, ?_,
+    by simpa using h.al, by simpa using h.id⟩
   · -- peers: only `snubbed` is reset
     intro p hp msg hm
     unfold reconcile at hp
@@ -369,9 +365,9 @@ theorem reconcile_winv (s : St) (impl : List ImplDl) (h : WInv s) (he : (reconci
 
 theorem reconcileIdl_winv (s : St) (impl : List Nat) (h : WInv s) (he : (reconcileIdl s impl).2 = []) :
     WInv (reconcileIdl s impl).1 := by
-  refine ⟨by simpa using h.cfgOK, h.q.of_peers (by simp), by simpa using h.wf, by simpa using h.wb,
-    by simpa using h.wg, by simpa using h.wc, by simpa using h.bd, by simpa using h.dd, by simpa using h.dl,
-    by simpa using h.al, ?_⟩
+  refine ⟨h.q.of_peers (by simp), by simpa using h.wf,
+    by simpa using h.wg, by simpa using h.wc, by simpa [St.n] using h.wl, by simpa using h.wd, by simpa using h.bd,
+    by simpa using h.dd, by simpa using h.dl, by simpa using h.al, ?_⟩
   intro hi
   have hi' : s.info = true := by simpa using hi
   rw [List.eq_nil_iff_forall_not_mem]
@@ -400,7 +396,10 @@ theorem drun_full (evs : List Ev) (sp : St × Parked) (h : Full sp.1) (ha : drun
 
 /-- The invariant holds of a freshly added torrent (`InitLike`) with no write in flight and a configuration
 whose pieces with blocks have data. -/
-theorem InitLike.full {s : St} (h : InitLike s) (hc : s.cfg.blocksHaveData = true) (hw : s.writing = none) :
-    Full s := ⟨h.life, h.comp, h.winv hc hw⟩
+theorem noFuture_of_none {s : St} (h : s.writing = none) : ∀ w, s.writing = some w → w.gen ≤ s.gen :=
+  fun w hw => by rw [h] at hw; cases hw
+
+theorem InitLike.full {s : St} (h : InitLike s) (hw : ∀ w, s.writing = some w → w.gen ≤ s.gen) :
+    Full s := ⟨h.life, h.comp, h.winv hw⟩
 
 end Rain.Loop
